@@ -3,10 +3,35 @@ import json
 from .. import common, framework, fndiff, cmdrun, gen, oracles, strace, crash
 
 
-def one_instance(ctx, r, big=0):
-    base, v, trace = crash.build_state(ctx, r, 8 + r.n(10), big=big)
+def prune_state(ctx, r):
+    """a store in which `prune --yes` has every kind of thing to do at once: finished tasks inside an epic (which empties it), a finished orphan,
+    an epic that is empty already, next to live work that must stay"""
+    st = cmdrun.Store(ctx.ergo_verif, ctx.go)
+    trace = []
+    def ex(argv, stdin=None):
+        env = {"VERIF_RAND": str(r.next() % (1 << 40))}
+        rr = st.exec(argv, stdin, env=env)
+        trace.append({"argv": argv, "stdin": None if stdin is None else stdin.decode(), "env": env})
+        return json.loads(rr["stdout"]) if rr["exit"] == 0 and rr["stdout"].strip().startswith("{") else {}
+    e1 = ex(["--json", "new", "epic"], b'{"title":"all finished"}').get("id")
+    ex(["--json", "new", "epic"], b'{"title":"empty"}')
+    e3 = ex(["--json", "new", "epic"], b'{"title":"still active"}').get("id")
+    for i in range(2 + r.n(3)):
+        t = ex(["--json", "new", "task"], json.dumps({"title": "f%d" % i, "epic": e1}).encode()).get("id")
+        ex(["--json", "set", t], json.dumps({"state": r.pick(["done", "canceled"])}).encode())
+    t = ex(["--json", "new", "task"], b'{"title":"orphan done"}').get("id")
+    ex(["--json", "set", t], b'{"state":"done"}')
+    ex(["--json", "new", "task"], json.dumps({"title": "live", "epic": e3}).encode())
+    t = ex(["--json", "new", "task"], json.dumps({"title": "done in active", "epic": e3}).encode()).get("id")
+    ex(["--json", "set", t], b'{"state":"done"}')
+    v = gen.View(st.graph().get("graph"))
+    return st, v, trace
+
+
+def one_instance(ctx, r, big=0, prepared=None):
+    base, v, trace = prepared if prepared else crash.build_state(ctx, r, 8 + r.n(10), big=big)
     try:
-        label, argv, stdin = crash.multi_event_command(r, v)
+        label, argv, stdin = ("prune--yes(tasks+epics)", ["--json", "--agent", "p", "prune", "--yes"], None) if prepared else crash.multi_event_command(r, v)
         env = {"VERIF_RAND": str(r.next() % (1 << 40))}
         pre = base.graph()
         if "err" in pre:
@@ -56,6 +81,9 @@ def run(ctx):
     r = gen.Rng(ctx.seed * 1000003 + 4)
     for i in range(22 if ctx.quick else 300):
         one_instance(ctx, r.fork(), big=(130 if i % 7 == 3 else 0))
+    for i in range(1 if ctx.quick else 10):
+        rr = r.fork()
+        one_instance(ctx, rr, prepared=prune_state(ctx, rr))
     ctx.cov["rule"] = ("for generated CLI-reachable pre-states × multi-event commands (claim, claim <id>, multi-field set, create-with-state/claim, sequence chain, prune --yes, plan, compact): "
                        "SIGKILL injected with strace before every one of the command's system calls on the store's files; observable state (clock readings aside) must equal "
                        "the state before or the state after (twin run with the same scripted RNG); distinct = (command, kill point, events recorded)")
